@@ -196,7 +196,7 @@ type TextEncoder struct {
 	buf         *bytes.Buffer // Buffer to write the encoded output
 	separator   string        // Separator used between top-level key-value pairs
 	jsonEncoder *JSONEncoder  // Embedded JSON encoder for nested objects/arrays
-	jsonDepth   int8          // Tracks depth of nested JSON structures
+	jsonDepth   int           // Tracks depth of nested JSON structures
 	hasWritten  bool          // Tracks if the first key-value has been written
 }
 
